@@ -72,6 +72,8 @@ Inductive case :=
 | CDID (inp : json) (out : json)
 (* CreateDIDKeyByJwk of the NIST-curve public key (x, y): the bytes under the base58 layer of the did:key *)
 | CEC (code : N) (size : nat) (x y : Z) (mc : list N)
+(* did.ParseDocument refused the document because of a time text or a proof *)
+| CDIDR (inp : json)
 (* jwk.JWK.MarshalJSON of the NIST-curve public key (x, y): the texts of the members x and y; UnmarshalJSON gave (x, y) back *)
 | CECJ (size : nat) (x y : Z) (xs ys : string)
 (* a time text through a pointer-to-time.Time member (encoding/json) and back; None = refused *)
@@ -102,6 +104,7 @@ Definition check_case (c : case) : bool :=
       | JObj o => ojeq (roundtrip_did2 Fixed inp) (Some out)
       | _ => false
       end
+  | CDIDR inp => match roundtrip_did2 Fixed inp with None => true | Some _ => false end
   | CECJ size x y xs ys =>
       let '(mx, my) := jwk_ec_members size x y in
       String.eqb mx xs && String.eqb my ys &&
